@@ -3,11 +3,13 @@
 (*       its date                                                           *)
 EXTENDS ObsBase
 Ids == 1..48
-VARIABLES tid, l, now, beg, due, bad
-vars == <<tid, l, now, beg, due, bad>>
+VARIABLES tid, l, now, beg, due, sdue, bad
+vars == <<tid, l, now, beg, due, sdue, bad>>
 \* beg[a] = the timed wait in progress of activity a: [on, t, kind, arg]
 \* due[k] = start date of a delayed task k (0 = none / consumed), dset = whether set
 Fail(c) == bad' = c /\ UNCHANGED <<beg, due>>
+\* sdue[s]: an until(<date condition>) block that is open and the date at which its notification fires
+NoS == [on |-> FALSE, due |-> 0]
 Max(x, y) == IF x > y THEN x ELSE y
 \* expected resume time of a wait, or -1 encoded as [never |-> TRUE]
 Never(w) == \/ (w.kind = "eq" /\ w.t > w.arg) \/ (w.kind = "lt" /\ w.t >= w.arg) \/ w.kind = "etern"
@@ -25,11 +27,27 @@ Mk(e, t, kind, arg) ==
   ELSE [w EXCEPT !.due = Expected(w), !.never = Never(w)]
 Init == /\ tid \in 1..N /\ l = 1 /\ bad = "" /\ now = 0
         /\ beg = [a \in Ids |-> NoWait] /\ due = [k \in Ids |-> [on |-> FALSE, t |-> 0]]
+        /\ sdue = [s \in Ids |-> NoS]
 Step ==
   /\ l <= Len(Traces[tid]) /\ bad = ""
   /\ l' = l + 1 /\ UNCHANGED tid
+  /\ sdue' = LET e0 == Traces[tid][l] o == F(e0, "op", "") t0 == F(e0, "t", now) IN
+             IF e0.e = "b" /\ o = "open" /\ e0.kind = "until_c" /\ e0.s \in Ids /\ e0.c[1] \in {"ge", "eq"}
+             THEN (IF "rank" \in DOMAIN e0
+                   THEN (IF "due" \in DOMAIN e0 THEN [sdue EXCEPT ![e0.s] = [on |-> TRUE, due |-> e0.due]] ELSE sdue)
+                   ELSE IF e0.c[1] = "eq" /\ t0 > e0.c[2] THEN sdue
+                   ELSE [sdue EXCEPT ![e0.s] = [on |-> TRUE, due |-> IF t0 > e0.c[2] THEN t0 ELSE e0.c[2]]])
+             ELSE IF F(e0, "blk", "") = "scope" /\ o \in {"leave", "body"} /\ e0.e \in {"r", "x", "u"} /\ e0.id \in Ids
+                  THEN [sdue EXCEPT ![e0.id] = NoS]
+             ELSE sdue
   /\ LET e == Traces[tid][l] a == F(e, "a", 0) op == F(e, "op", "") t == F(e, "t", now) IN
-     IF e.e = "fin" THEN UNCHANGED <<now, beg, due, bad>>
+     IF e.e = "fin" THEN
+        \* a block whose date has been reached cannot still be open when the run ends normally
+        (IF e.ok /\ \E s \in Ids : sdue[s].on /\ sdue[s].due <= now THEN Fail("C01.until_date_missed") /\ now' = now
+         ELSE UNCHANGED <<now, beg, due, bad>>)
+     \* an until(date) block ends no later than its date
+     ELSE IF F(e, "blk", "") = "scope" /\ op \in {"leave", "body"} /\ e.e \in {"r", "x", "u"} /\ e.id \in Ids
+             /\ sdue[e.id].on /\ t > sdue[e.id].due THEN Fail("C01.until_date_missed") /\ now' = now
      ELSE IF t < now THEN Fail("C01.clock_decreased") /\ now' = now
      ELSE /\ now' = t
           /\ IF a \in Ids /\ due[a].on /\ e.e \in {"b", "p", "end"} /\ t # due[a].t /\ ~(e.e = "end" /\ e.how # "ok")
